@@ -51,7 +51,7 @@ def gen(rng, idx, tier):
     kind = str(rng.choice(KINDS))
     cplx = bool(rng.random() < 0.3) and kind in ("LinSolve", "Inverse")
     cls = str(rng.choice(G.CLASSES_CPLX if cplx else G.CLASSES_REAL + ["hindef_posdiag"]))
-    storage = str(rng.choice(["dense", "csc", "csr"])) if kind != "Inverse" else "dense"
+    storage = str(rng.choice(["dense", "csc", "csr", "csc_full", "csr_full"])) if kind != "Inverse" else "dense"
     solver = str(rng.choice(["auto", "auto", "auto", "explicit", "wrapped", "cg", "nolda"]))
     if solver == "cg" and cls not in ("spd", "hpd"):
         solver = "auto"
@@ -240,8 +240,10 @@ def run(case):
         I = insts[op.get("o", 0) % nobj]
         if op["op"] == "setA":
             I.a_seed, I.pattern = op["seed"], op["pattern"]
-            if I.nresp == 0:
-                I.pattern = "full"     # the solver is chosen from the first matrix: it must be generic for its class
+            if I.nresp == 0 and not (I.kind == "LinSolve" and I.pattern in ("bothdec", "rowdec", "coldec")):
+                # the solver is chosen from the first matrix: it must be generic for its class (a few decoupled dofs keep a
+                # LinSolve matrix generic: it is neither diagonal nor of another symmetry class)
+                I.pattern = "full"
             if I.kind == "StaticCondensation" and case["solver"] == "cg":
                 I.pattern = "full"     # a main dof without coupling to the free dofs gives CG an all-zero column (documented exclusion)
             if sym_like(case["cls"]) and I.pattern in ("rowdec", "coldec"):
